@@ -1,0 +1,99 @@
+// SPDX-FileCopyrightText: 2026 The Pion community <https://pion.ly>
+// SPDX-License-Identifier: MIT
+
+//go:build verif && verif_c38 && !js
+
+package webrtc
+
+import "errors"
+
+// VerifEnumOfText runs the text decoder (new…/New…) of the named enum type
+// for the verification harness (property C38). known is false when the type
+// has no such decoder.
+func VerifEnumOfText(name, raw string) (val int, err error, known bool) { //nolint:cyclop,staticcheck
+	known = true
+	switch name {
+	case "SDPType":
+		val = int(NewSDPType(raw))
+	case "SignalingState":
+		val = int(newSignalingState(raw))
+	case "ICEConnectionState":
+		val = int(NewICEConnectionState(raw))
+	case "ICEGatheringState":
+		val = int(NewICEGatheringState(raw))
+	case "ICETransportState":
+		val = int(newICETransportState(raw))
+	case "ICERole":
+		val = int(newICERole(raw))
+	case "ICEComponent":
+		val = int(newICEComponent(raw))
+	case "ICEProtocol":
+		var v ICEProtocol
+		v, err = NewICEProtocol(raw)
+		val = int(v)
+	case "ICECandidateType":
+		var v ICECandidateType
+		v, err = NewICECandidateType(raw)
+		val = int(v)
+	case "ICECredentialType":
+		var v ICECredentialType
+		v, err = newICECredentialType(raw)
+		val = int(v)
+	case "ICETransportPolicy":
+		val = int(NewICETransportPolicy(raw))
+	case "DTLSTransportState":
+		val = int(newDTLSTransportState(raw))
+	case "SCTPTransportState":
+		val = int(newSCTPTransportState(raw))
+	case "DataChannelState":
+		val = int(newDataChannelState(raw))
+	case "PeerConnectionState":
+		val = int(newPeerConnectionState(raw))
+	case "BundlePolicy":
+		val = int(newBundlePolicy(raw))
+	case "RTCPMuxPolicy":
+		val = int(newRTCPMuxPolicy(raw))
+	case "SDPSemantics":
+		val = int(newSDPSemantics(raw))
+	case "RTPTransceiverDirection":
+		val = int(NewRTPTransceiverDirection(raw))
+	case "NetworkType":
+		var v NetworkType
+		v, err = NewNetworkType(raw)
+		val = int(v)
+	case "RTPCodecType":
+		val = int(NewRTPCodecType(raw))
+	default:
+		known = false
+	}
+
+	return val, err, known
+}
+
+// VerifErrClass names the sentinel a decoding error wraps.
+func VerifErrClass(err error) string {
+	switch {
+	case err == nil:
+		return ""
+	case errors.Is(err, errInvalidICEServer):
+		return "invalid-ice-server"
+	case errors.Is(err, errInvalidICECredentialTypeString):
+		return "invalid-credential-type"
+	case errors.Is(err, errICECandidateTypeUnknown):
+		return "unknown-candidate-type"
+	case errors.Is(err, errICEProtocolUnknown):
+		return "unknown-protocol"
+	case errors.Is(err, errNetworkTypeUnknown):
+		return "unknown-network-type"
+	case errors.Is(err, errCertificatePEMMultipleCert):
+		return "multiple-cert"
+	case errors.Is(err, errCertificatePEMMultiplePriv):
+		return "multiple-priv"
+	case errors.Is(err, errCertificatePEMMissing):
+		return "missing"
+	case errors.Is(err, ErrUnknownType):
+		return "unknown-type"
+	default:
+		return "other"
+	}
+}
